@@ -177,3 +177,24 @@ Example w_mem_target :
             (in_frs (w_mem_input false)) 1
             [CN "m.emb" ["Outer"; "v"]; CN "m.emb" ["Inner"; "q"]].
 Proof. apply (resolve_fr_sound_lem _ _ _ _ 4). vm_compute. reflexivity. Qed.
+
+(* struct Foo(p: UInt:8):            (line 1)
+     0 [+1]  UInt  y                 (line 2)
+     let v = p                       (line 3)
+     let w = p.x   /  let w = v.x    (line 4) *)
+Definition w_par_input (via_alias : bool) : input :=
+  let s := Site "m.emb" ["Foo"] None in
+  Input [Module "m.emb" [IDef "" "" 0]
+                [TyDef "Foo" 1 [PDef "p" 1] (BStruct [FDef "y" 2 None (FPhys (FTAtomic 1)); FDef "v" 3 None (FVirtAlias 0);
+                                                      FDef "w" 4 None (FVirtAlias 1)]) []];
+         w_prelude]
+        [RefSite s (Ref [("UInt", 1%N)] false 1); RefSite s (Ref [("UInt", 2%N)] false 2)]
+        [FRef s [("p", 3%N)]; FRef s [((if via_alias then "v" else "p"), 4%N); ("x", 4%N)]].
+
+(* member access on a parameter is the noncomposite error (fix e48f2e2) ... *)
+Example w_par_direct : run_pass2 (w_par_input false) = Rejected2 [Err KNoncomposite "m.emb" 4 "p" []].
+Proof. vm_compute. reflexivity. Qed.
+
+(* ... also when the parameter is reached through a virtual alias (fix 6efa7de): named after the alias *)
+Example w_par_via_alias : run_pass2 (w_par_input true) = Rejected2 [Err KNoncomposite "m.emb" 4 "v" []].
+Proof. vm_compute. reflexivity. Qed.
